@@ -162,6 +162,8 @@ def cexpr(n, env):
       fmt = {ast.Gt: "(oltb O %s %s)", ast.GtE: "(oleb O %s %s)"}.get(op)
       if fmt:
         return ('B', fmt % (r, l))
+    if lt == 'V' and rt == 'S' and op is ast.Lt:
+      return ('VB', "(nn_lt_vs %s %s)" % (l, r))
     if lt == rt == 'V' and op is ast.Gt:
       return ('VB', "(nn_gt_vv %s %s)" % (l, r))
     if lt == 'V' and rt == 'S' and op is ast.Gt:
@@ -169,6 +171,28 @@ def cexpr(n, env):
     raise Untranslatable(n, "comparison not in the idiom table")
   if isinstance(n, ast.Call):
     f = n.func
+    if isinstance(f, ast.Name) and f.id == 'any' and len(n.args) == 1 and not n.keywords:
+      ty, tm = cexpr(n.args[0], env)
+      if ty == 'VB':
+        return ('B', "(nn_any %s)" % tm)
+      raise Untranslatable(n, "any() on type " + ty)
+    if isinstance(f, ast.Name) and f.id == 'abs' and len(n.args) == 1 and not n.keywords:
+      ty, tm = cexpr(n.args[0], env)
+      if ty == 'V':
+        return ('V', "(nn_abs_v %s)" % tm)
+      if ty == 'S':
+        return ('S', "(oabs O %s)" % tm)
+      raise Untranslatable(n, "abs() on type " + ty)
+    if isinstance(f, ast.Name) and f.id == 'len' and len(n.args) == 1 and not n.keywords:
+      ty, tm = cexpr(n.args[0], env)
+      if ty in ('V', 'M'):
+        return ('N', "(length %s)" % tm)
+      raise Untranslatable(n, "len() on type " + ty)
+    if isinstance(f, ast.Attribute) and f.attr == 'max' and not n.args and not n.keywords and not is_name(f.value, 'np'):
+      ty, tm = cexpr(f.value, env)
+      if ty == 'V':
+        return ('S', "(nn_max_v %s)" % tm)
+      raise Untranslatable(n, ".max() on type " + ty)
     if isinstance(f, ast.Name) and f.id in ('min', 'max') and len(n.args) == 2 and not n.keywords:
       (at, a), (bt, b) = cexpr(n.args[0], env), cexpr(n.args[1], env)
       if at == bt == 'S':
